@@ -508,8 +508,13 @@ func ruleR184(p *Program, r *Report) {
 		}
 		r.Check(ok && n > 0, "R18.4", fnName(fn), "imported keys go through copyKey", p.Pos(fn.Pos()), "newKeys[i] = *copyKey(&ringData.Keys[i])", "a key from the bundle is stored in the ring without being re-encrypted by copyKey")
 	}
+	ruleCopyKey(p, r, "R18.4")
+}
+
+// ruleCopyKey: the import copy of a key starts from empty data and is filled by the encrypting constructor on every success path.
+func ruleCopyKey(p *Program, r *Report, rule string) {
 	if fn := p.Func("keystore/v2/keystore/filesystem.(*KeyRing).copyKey"); fn == nil || fn.Blocks == nil {
-		r.Anchor("R18.4", "copyKey")
+		r.Anchor(rule, "copyKey")
 	} else {
 		// key.Data starts empty and only addKeyData appends to it
 		add := callsNamed(fn, "addKeyData")
@@ -538,7 +543,31 @@ func ruleR184(p *Program, r *Report) {
 		if ok && !fresh {
 			ok, why = false, "the copy keeps the bundle's plaintext key data (Data is not reset before re-adding)"
 		}
-		r.Check(ok, "R18.4", fnName(fn), "copy starts empty and is filled by addKeyData", p.Pos(fn.Pos()), "key.Data = make(.., 0, n); addKeyData for each datum", why)
+		// every exit that hands a key back has passed the reset: no early return carries the bundle's data over
+		if ok {
+			var reset *ssa.Store
+			for _, b := range fn.Blocks {
+				for _, in := range b.Instrs {
+					if st, isSt := in.(*ssa.Store); isSt {
+						if fa, isFa := st.Addr.(*ssa.FieldAddr); isFa {
+							stt := fa.X.Type().Underlying().(*types.Pointer).Elem().Underlying().(*types.Struct)
+							if _, isMk := st.Val.(*ssa.MakeSlice); isMk && stt.Field(fa.Field).Name() == "Data" {
+								reset = st
+							}
+						}
+					}
+				}
+			}
+			for _, ret := range returnsOf(fn) {
+				if isNilConst(retValue(ret, 0)) || !isNilConst(retValue(ret, 1)) {
+					continue
+				}
+				if reset == nil || !(reset.Block().Dominates(ret.Block())) {
+					ok, why = false, "a success return is reached without the copy's Data having been reset: that key is stored with the bundle's decrypted key material"
+				}
+			}
+		}
+		r.Check(ok, rule, fnName(fn), "copy starts empty and is filled by addKeyData", p.Pos(fn.Pos()), "key.Data = make(.., 0, n); addKeyData for each datum", why)
 	}
 }
 
@@ -716,6 +745,7 @@ func init() {
 	mut("C18", "v1 import writes before decoding", "keystore/filesystem/filesystem_backup.go", "	decoder := gob.NewDecoder(bytes.NewReader(decryptedData))\n	keys := []*keystore.Key{}\n	if err := decoder.Decode(&keys); err != nil {\n		return nil, err\n	}\n", "	decoder := gob.NewDecoder(bytes.NewReader(decryptedData))\n	keys := []*keystore.Key{}\n	_ = decoder.Decode(&keys)\n", "R18.3", "decrypted and decoded")
 	mut("C18", "v1 import stores private keys as they came", "keystore/filesystem/filesystem_backup.go", "			content, err = store.currentDecryptor.Encrypt(context.Background(), key.Content, keyContext)", "			_, err = store.currentDecryptor.Encrypt(context.Background(), key.Content, keyContext)", "R18.4", "re-encrypted")
 	mut("C18", "v2 copyKey keeps the bundle's key data", "keystore/v2/keystore/filesystem/key.go", "	key.Data = make([]asn1.KeyData, 0, len(other.Data))\n	for _, otherKey := range other.Data {", "	key.Data = other.Data[:0:0]\n	for _, otherKey := range other.Data {", "R18.4", "copy starts empty")
+	mut("C18", "destroyed keys are carried over with their data", "keystore/v2/keystore/filesystem/key.go", "	key := *other\n	// Other key's data is currently in plaintext. We need to encrypt it.", "	key := *other\n	if api.KeyState(other.State) == api.KeyDestroyed {\n		return &key, nil\n	}\n	// Other key's data is currently in plaintext. We need to encrypt it.", "R18.4", "copy starts empty")
 	mut("C18", "v2 public-only export keeps symmetric keys", "keystore/v2/keystore/filesystem/export.go", "		data.PrivateKey = nil\n		data.SymmetricKey = nil\n", "		data.PrivateKey = nil\n", "R18.5", "public-only")
 	mut("C18", "copyKey rejects destroyed keys again (original defect)", "keystore/v2/keystore/filesystem/key.go", "	if len(other.Data) == 0 && api.KeyState(other.State) != api.KeyDestroyed {", "	if len(other.Data) == 0 {", "R18.6", "destroyed key")
 	mut("C18", "migration loses the HMAC key case", "keystore/v2/keystore/importV1.go", "	case keystore.PurposeSearchHMAC:", "	case keystore.PurposeUndefined:", "R18.7", "PurposeSearchHMAC")
